@@ -2,5 +2,21 @@
 open Model
 open Vparse
 
-let register (reg : string -> (v list -> string) -> unit) : unit =
-  ignore reg
+let all : ((string -> (v list -> string) -> unit) -> unit) list ref = ref []
+let section f = all := f :: !all
+
+
+let dkind_of z = match z_to_int z with 0 -> DNone | 1 -> DRegular | 2 -> DRandom | _ -> DUnknown
+
+let show_dist ((iv, outs), evals) = "[" ^ z_to_string iv ^ "," ^ show_zlist outs ^ "," ^ z_to_string evals ^ "]"
+
+let register_c12 reg =
+  reg "dist" (function
+    | [k; iv; rates; rands; calls] ->
+      show_res show_dist (dist_run (dkind_of (zv k)) (zv iv) (zlist rates) (zlist rands) (natv calls))
+    | _ -> failwith "dist: arity");
+  reg "dist_ok" (function
+    | [k; iv; rates; rands; calls; L [iv'; outs; evals]] ->
+      show_bool (dist_ok (dkind_of (zv k)) (zv iv) (zlist rates) (natv calls) (zv iv') (zlist outs) (zv evals))
+    | _ -> failwith "dist_ok: arity")
+let () = section register_c12
